@@ -455,6 +455,68 @@ def _(c):
     c.ensure("origin_of_orbit_frame_is_its_orbit", ok_origin)
 
 
+def _grid_station_opts(tier, rng):
+    """station options {equatorial axes, parent frame PEF, parent frame TIRF, equatorial axes on parent PEF, heading 'S' on parent PEF} x 2 dates"""
+    for opt in range(5):
+        yield {"opt": opt}
+
+
+def _station_options(c):
+    """bounded: a station created with the rarer options -- axes of EME2000 at the station's position (equatorial=True), a parent frame other than ITRF -- leaves every
+    conversion among the built-in frames bit-identical, converts to and from every built-in frame without loss, and its conversion to ITRF equals the one made through
+    its declared parent (real IERS tables: PEF and ITRF differ by the polar motion)"""
+    from beyond.frames import frames as fr_
+    from beyond.frames.stations import create_station
+    from beyond.orbits import StateVector
+    from beyond.dates import Date
+    from contracts.eopcfg import use_eop
+    use_eop(real=True)
+    names = ["EME2000", "MOD", "TOD", "TEME", "PEF", "ITRF", "TIRF", "CIRF", "GCRF", "G50"]
+    dates = [Date(2010, 3, 4, 5, 6, 7), Date(2016, 11, 30, 23, 59, 0)]
+    x = [7e6 * 0.6, 7e6 * 0.5, 7e6 * 0.62, -4.5e3, 5.5e3, 1.2e3]
+
+    def matrix():
+        out = {}
+        for d in dates:
+            for a in names:
+                sv = StateVector(x, d, "cartesian", a)
+                for b in names:
+                    out[(str(d), a, b)] = np.asarray(sv.copy(frame=b), dtype=float).tobytes()
+        return out
+    base = matrix()
+    opt = c.integer("opt")
+    nm = f"C20OPT{opt}"
+    kw = [dict(equatorial=True), dict(parent_frame=fr_.PEF), dict(parent_frame=fr_.TIRF), dict(equatorial=True, parent_frame=fr_.PEF), dict(parent_frame=fr_.PEF, mask=None)][opt]
+    parent = kw.get("parent_frame", fr_.ITRF).name
+    sta = create_station(nm, (43.6, 1.44, 150.0), **kw)
+    c.ensure("existing_conversions_unchanged", matrix() == base)
+    ok_rt, ok_path, why = True, True, ""
+    for d in dates:
+        for b in names:
+            try:
+                sv = StateVector(x, d, "cartesian", b)
+                there = sv.copy(frame=sta)
+                back = np.asarray(there.copy(frame=b), dtype=float)
+                ok_rt = ok_rt and bool(np.allclose(back, x, rtol=1e-9, atol=1e-6))
+                via = np.asarray(sv.copy(frame=parent).copy(frame=sta), dtype=float)
+                ok_path = ok_path and bool(np.linalg.norm(via[:3] - np.asarray(there, dtype=float)[:3]) <= 1e-6)
+                # and out of the station frame: directly, and through the declared parent
+                p2 = StateVector(list(np.asarray(there, dtype=float)), d, "cartesian", sta)
+                out1 = np.asarray(p2.copy(frame=b), dtype=float)
+                out2 = np.asarray(p2.copy(frame=parent).copy(frame=b), dtype=float)
+                ok_path = ok_path and bool(np.linalg.norm(out1[:3] - out2[:3]) <= 1e-6)
+            except Exception as e:
+                ok_rt, why = False, why + f" {b}: {type(e).__name__} {e};"
+    if why:
+        print("station_options:", why[:300])
+    c.ensure("new_frame_round_trips", ok_rt)
+    c.ensure("direct_equals_through_the_declared_parent", ok_path)
+
+
+contract("C20", "register.station_options", funcs=["beyond.frames.stations:create_station", "beyond.frames.orient:TopocentricOrientation.__init__"], grid=_grid_station_opts, level="bounded")(_station_options)
+contract("C02", "station_options", funcs=["beyond.frames.stations:create_station", "beyond.frames.orient:TopocentricOrientation.__init__"], grid=_grid_station_opts, level="bounded")(_station_options)
+
+
 def _grid_lagr(tier, rng):
     """the 6 orders in which {synodic frame about L1, synodic frame about L2, a station and a QSW orbit frame} are registered (under new names each time)"""
     for order in range(6):
